@@ -27,7 +27,8 @@ fn main() {
         small: args.u64("small", 0) != 0,
         delays: args.u64("delays", 1) != 0,
     };
-    match mode.as_str() {
+    // a panic of the repository code on the calling (ticking) thread ends the run; it is reported with its message
+    let run = std::panic::catch_unwind(std::panic::AssertUnwindSafe(|| match mode.as_str() {
         "random" => m_worker::run_random(&opts, &mut rep, &props),
         "directed" => m_directed::run_directed(&opts, &mut rep, &props),
         "c13" => m_directed::run_c13(&opts, &mut rep),
@@ -42,6 +43,26 @@ fn main() {
         other => {
             eprintln!("unknown mode {other}");
             std::process::exit(3)
+        }
+    }));
+    if run.is_err() {
+        let msg = vmon::refm::last_panic();
+        let loc = msg.rsplit(" @ ").next().unwrap_or("").to_owned();
+        let prop = match mode.as_str() {
+            "c13" => "C13",
+            "c20" => "C20",
+            "race" => "C09",
+            _ => props[0],
+        };
+        if loc.starts_with("/repo/") {
+            rep.violation(
+                prop,
+                "panic-on-the-calling-thread",
+                format!("panic@{loc}"),
+                vmon::jobj! {"message" => msg, "mode" => mode.clone(), "note" => "the history that was running is the last one started by this shard (seed, shard in the command line)"},
+            );
+        } else {
+            rep.inconclusive(format!("monitor panicked outside the repository code: {msg}"));
         }
     }
     rep.write(&out);
